@@ -221,3 +221,38 @@ def inline_helpers(repo, module, expr, depth=0, skip=()):
             return inline_helpers(repo, r[1].module, out, depth + 1, skip)
     import copy as _copy
     return Tr().visit(_copy.deepcopy(expr))
+
+
+def splice_self_calls(ci, fnode, depth=0):
+    """statement-level inlining of parameterless private helpers:  `self._step()`  (an expression statement, helper takes only self and
+    returns nothing)  is replaced by a copy of the helper's body, so that path rules over a method see through `split a long method`"""
+    import copy as _copy
+    if depth > 3:
+        return fnode
+    out = _copy.deepcopy(fnode) if depth == 0 else fnode
+
+    def splice(stmts):
+        res = []
+        for s in stmts:
+            if isinstance(s, ast.Expr) and isinstance(s.value, ast.Call) and isinstance(s.value.func, ast.Attribute) and \
+                    isinstance(s.value.func.value, ast.Name) and s.value.func.value.id == "self" and not s.value.args and not s.value.keywords:
+                m = ci.find_method(s.value.func.attr)
+                if m is not None and len(m.node.args.args) == 1 and not m.node.args.kwonlyargs and not m.node.args.vararg and \
+                        not any(isinstance(r, ast.Return) and r.value is not None for r in ast.walk(m.node)) and \
+                        not any(isinstance(y, (ast.Yield, ast.YieldFrom)) for y in ast.walk(m.node)):
+                    body = [b for b in _copy.deepcopy(m.node.body)
+                            if not (isinstance(b, ast.Expr) and isinstance(b.value, ast.Constant) and isinstance(b.value.value, str))]
+                    body = [b for b in body if not (isinstance(b, ast.Return) and b.value is None)]
+                    tmp = ast.FunctionDef(name="_", args=m.node.args, body=body or [ast.Pass()], decorator_list=[], returns=None, type_comment=None)
+                    tmp = splice_self_calls(ci, tmp, depth + 1)
+                    res.extend(tmp.body)
+                    continue
+            for f in ("body", "orelse", "finalbody"):
+                b = getattr(s, f, None)
+                if isinstance(b, list) and b and isinstance(b[0], ast.stmt):
+                    setattr(s, f, splice(b))
+            res.append(s)
+        return res
+    out.body = splice(out.body)
+    ast.fix_missing_locations(out)
+    return out
